@@ -400,15 +400,21 @@ def case_tree(spec, cov, out):
     seen_keys = {}
     for p in paths:
         nt = type(sim.network.get_node_by_hostname(p[2])).__name__ if len(p) > 2 and p[0] == "network" and p[1] == "node" else "-"
-        k = (nt, sig(p))
+        # the same path shape under different software (application/<name>/configure ...) leads to different handlers: keep them apart
+        k = (nt, sig(p), p[4] if len(p) > 4 and p[3] in ("service", "application") else None)
         seen_keys[k] = seen_keys.get(k, 0) + 1
         p_rank = seen_keys[k]
         p.append(p_rank)
-    paths.sort(key=lambda p: p[-1])
+    # within a rank, requests that take components away (uninstall, delete, shutdown, disable ...) go last: otherwise an early one
+    # turns the paths that follow into 'unreachable' and their handlers are never exercised
+    taking = {"uninstall", "shutdown", "reset", "delete", "disable", "stop", "close", "pause", "remove", "logoff", "remote_logoff", "disable_user"}
+    paths.sort(key=lambda p: (p[-1], any(isinstance(x, str) and x in taking for x in p[3:-1])))
     for p in paths:
         p.pop()
     cov.mx("distinct_path_shapes_by_node_type", len(seen_keys))
     budget = spec["budget"]
+    if sclass == "pristine":
+        budget = max(budget, len(seen_keys))  # in the pristine state every distinct handler of the scenario is exercised at least once
     cov.hit("state_classes", sclass)
     for path in paths[:budget]:
         node = None
@@ -640,7 +646,7 @@ class Check:
             for sc in SCLASSES:
                 sd = seed * 1000 + s
                 specs.append({"name": f"tree-{sd}-{sc}", "kind": "tree", "seed": sd, "family": fams[s % 3], "sclass": sc,
-                              "budget": 90 if q else 400, "vecs": 4, "muts": 4 if q else 8})
+                              "budget": (320 if sc == "pristine" else 90) if q else 500, "vecs": 4, "muts": (2 if sc == "pristine" else 4) if q else 8})
         for s in range(6 if q else 30):
             sd = seed * 1000 + 500 + s
             specs.append({"name": f"actions-{sd}", "kind": "actions", "seed": sd, "family": fams[s % 3], "sclasses": SCLASSES,
